@@ -61,6 +61,10 @@ theorem html_attr_written_value_counterexample : type_of% @Verif.Proofs.C09Html.
 theorem html_start_tag_retokenises : type_of% @Verif.Proofs.C09Html.html_start_tag_retokenises :=
   @Verif.Proofs.C09Html.html_start_tag_retokenises
 
+/-- the same for one step of the token loop, hypotheses on the lexer's start-tag token only -/
+theorem html_start_tag_step : type_of% @Verif.Proofs.C09Html.html_start_tag_step :=
+  @Verif.Proofs.C09Html.html_start_tag_step
+
 /-- **HTML raw-text elements** (script, style, iframe, textarea): the content the model writes does not end the element
     early and the end tag ends it; guard: no `<!--` in a script (K-C09-HTML-8); contract `SubKeeps` on the sub-minifier -/
 theorem html_rawtext_end_stable_partial : type_of% @Verif.Proofs.C09Html.html_rawtext_end_stable_partial :=
@@ -88,6 +92,11 @@ theorem html_output_retokenises_partial : type_of% @Verif.Proofs.C09Html.html_ou
 /-- without the guard it is false: a removed comment between `<` and `b>` creates a tag (K-C09-HTML-4) -/
 theorem html_output_retokenises_counterexample : type_of% @Verif.Proofs.C09Html.html_output_retokenises_counterexample :=
   @Verif.Proofs.C09Html.html_output_retokenises_counterexample
+
+/-- the same over the lexer grammar `lexShape` -/
+theorem html_output_retokenises_lexshape_counterexample :
+    type_of% @Verif.Proofs.C09Html.html_output_retokenises_lexshape_counterexample :=
+  @Verif.Proofs.C09Html.html_output_retokenises_lexshape_counterexample
 
 /-- html.go's reference decoding creates a tag from the text `<&#98;>` (K-C09-HTML-10) -/
 theorem html_text_safe_not_preserved : type_of% @Verif.Proofs.C09Html.html_text_safe_not_preserved :=
